@@ -136,7 +136,9 @@ func (x *Exec) native(st *State, fr *Frame, callee *ssa.Function, key string, ar
 		k(st, freshRet("contains"))
 		return true
 	case "encoding/json.Unmarshal":
-		x.havocDeep(st, argv[1])
+		if r := x.havocDeep(st, argv[1]); r != "" {
+			st.heap["gg:$decoded"] = r // ghost: the object most recently decoded into
+		}
 		e := st.freshVal("jsonerr", rt)
 		st.assume(sImp(sEq("(slen "+argv[0].S+")", "0"), sNot(sEq("(itag "+e.S+")", "0"))))
 		k(st, e)
